@@ -20,6 +20,7 @@ EXTENDS CobraModelOps, Json, IOUtils, TLCExt
 
 RxSeq8 == <<"r1", "r2", "r3", "r4", "EX_m3", "EX_m4", "DM_m1", "SK_m2">>
 MetSeq4 == <<"m1", "m2", "m3", "m4">>
+MetSeq5 == <<"m1", "m2", "m3", "m4", "m5">>        \* (m5: a spare internal identifier -- the target of renames)
 GeneSeq4 == <<"g1", "g2", "g3", "g4">>
 GrpSeq1 == <<"grp1">>
 
